@@ -3,7 +3,7 @@ import json
 import vlib
 from props import dir20
 
-MON = {"ReplyConforms", "SearchConforms", "NotStuck"}
+MON = {"ReplyConforms", "SearchConforms", "SearchCodesConform", "GenericSearchConforms", "TokenGroupsConform", "NotStuck"}
 ASSUME = ["pool DNs are ASCII and not substrings of one another (the property's precondition; the directory matches DNs by substring of the "
           "decompiled filter string, which escapes non-ASCII bytes)",
           "values found are compared as plain or BER-wrapped form, attributes as a set of (name, bag of values)",
